@@ -73,6 +73,9 @@ case "$TIER" in quick|thorough) ;; *) echo "usage: run.sh <Cxx> <quick|thorough>
 build_harness release
 if needs_dbg "$ID"; then build_harness dbg; fi
 
+if [ "$ID" = "C13" ]; then
+  build_ws rayonh release
+fi
 if [ "$ID" = "C08" ]; then
   build_ws loomh release
   build_ws loomh dbg
